@@ -107,7 +107,7 @@ def core_values(max_leaves=25):
 
 def deep_core(depth, rnd):
     """deterministic deep nesting (<= 12) that hypothesis' recursive() rarely reaches"""
-    v = rnd.choice([None, True, 0, -1, 2 ** 70, 1.5, float("inf"), "x", "\U0001F600"])
+    v = rnd.choice([None, True, 0, -1, 2 ** 70, 1.5, float("inf"), float("nan"), -0.0, "x", "\U0001F600"])
     for i in range(depth):
         if rnd.random() < 0.5:
             v = [v] if rnd.random() < 0.6 else [rnd.choice([None, 1, "s"]), v]
